@@ -131,3 +131,12 @@ _run0 = run
 def run(ctx, rep, tier):
     _run0(ctx, rep, tier)
     _shared(ctx, rep, tier)
+
+
+_run_i = run
+
+
+def run(ctx, rep, tier):
+    _run_i(ctx, rep, tier)
+    from .c05 import check_getitem_contract
+    check_getitem_contract(ctx, rep, "C09.g")
